@@ -1,17 +1,18 @@
 #!/usr/bin/env python3
 """Collects confirmed seeded changes into /verif/seeded/<prop>-<n>/ and prints the catches table.
 usage: seed_report.py   (reads build/seedres/<prop>-<n>.json and, while they exist, the seeding worktrees
-/tmp/mut-<prop> (n 1-3), /tmp/mut2-<prop> (n 4-6), /tmp/mut3-<prop> (n 7-9); afterwards seeded/<prop>-<n>/ itself)"""
+/tmp/mut-<prop> (n 1-3), /tmp/mut2-<prop> (n 4-6), /tmp/mut3-<prop> (n 7-9), /tmp/mut4-<prop> (n 10-11); afterwards seeded/<prop>-<n>/ itself)"""
 import json, os, glob, shutil, re
 ROOT = os.path.dirname(os.path.dirname(os.path.abspath(__file__)))
 rows = []
-for rp in sorted(glob.glob(os.path.join(ROOT, "build", "seedres", "C*-*.json"))):
+for rp in sorted(glob.glob(os.path.join(ROOT, "build", "seedres", "C*-*.json")), key=lambda x: (os.path.basename(x)[:3], int(os.path.basename(x)[4:-5]))):
     tag = os.path.basename(rp)[:-5]
     prop, n = tag.split("-")
     k = int(n)
     src = ("/tmp/mut-%s/seeds/%d" % (prop, k) if k <= 3 else
            "/tmp/mut2-%s/seeds/%d" % (prop, k - 3) if k <= 6 else
-           "/tmp/mut3-%s/seeds/%d" % (prop, k - 6))
+           "/tmp/mut3-%s/seeds/%d" % (prop, k - 6) if k <= 9 else
+           "/tmp/mut4-%s/seeds/%d" % (prop, k - 9))
     r = json.load(open(rp))
     confirmed = all(r.get(k) for k in ("demo_passes_pristine", "patch_applies", "builds", "suite_passes", "demo_fails_with_change"))
     dst = os.path.join(ROOT, "seeded", tag)
